@@ -11,6 +11,12 @@ os.makedirs(dst, exist_ok=True)
 for f in ('patch.diff', 'demo.py', 'notes.txt'):
     if os.path.exists(os.path.join(src, f)) and os.path.abspath(src) != os.path.abspath(dst):
         shutil.copy(os.path.join(src, f), os.path.join(dst, f))
+_old = {}
+if os.path.exists(os.path.join(dst, 'meta.json')):
+    try:
+        _old = json.load(open(os.path.join(dst, 'meta.json')))
+    except Exception:
+        _old = {}
 meta = {'id': sid, 'property': prop, 'needs_to_manifest': json.load(open('/verif/seeded/NEEDS.json')).get(sid, 'see notes.txt'), 'ran': []}
 wt = tempfile.mkdtemp(prefix='seed-ev-')
 os.rmdir(wt)
@@ -53,6 +59,11 @@ try:
 finally:
     sh('git -C /repo worktree remove --force %s' % wt)
     shutil.rmtree(wt, ignore_errors=True)
+if not suite:
+    for k in ('suite_with_change', 'suite_with_change_rerun_single_process'):
+        if k in _old:
+            meta[k] = _old[k]
+    meta['ran'] += [r for r in _old.get('ran', []) if 'pytest' in r]
 with open(os.path.join(dst, 'meta.json'), 'w') as f:
     json.dump(meta, f, indent=1)
 print(json.dumps({k: meta[k] for k in ('id', 'demo_clean_exit', 'demo_changed_exit', 'detected', 'detected_by', 'violation_detail') if k in meta}, indent=1)[:3000])
